@@ -486,6 +486,13 @@ func (r *Runner) settledHang(evalGID int) (sig, dump string, running bool) {
 	if ForeverBlocked(a.evalG.State) {
 		return "hang:nil-chan@" + a.evalG.Top, a.evalG.Text, false
 	}
+	if !Live(a.evalG.State) {
+		for _, g := range ParseDump(a.allText) {
+			if g.Elv && ForeverBlocked(g.State) {
+				return "hang:nil-chan@" + g.Top, g.Text + "\n\n" + a.evalG.Text, false
+			}
+		}
+	}
 	time.Sleep(1200 * time.Millisecond)
 	b := r.snapshot(evalGID)
 	if a.live || b.live || a.key != b.key || b.evalG == nil {
